@@ -135,6 +135,7 @@ func (server *Server) pop(conn *redis.Conn, key string, count int, isLPop bool) 
 	} else {
 		elems, ok = list.RPop(count)
 	}
+	db.RemoveRecordIfEmpty(key)
 
 	if !ok || len(elems) == 0 {
 		return redis.NewNilMessage(), nil
@@ -205,6 +206,10 @@ func (server *Server) LRange(conn *redis.Conn, key string, start int, stop int) 
 		return nil, err
 	}
 
+	if !db.HasRecord(key) {
+		return redis.NewArrayMessage(), nil
+	}
+
 	_, list, err := db.GetListRecord(key)
 	if err != nil {
 		return nil, err
@@ -226,6 +231,10 @@ func (server *Server) LIndex(conn *redis.Conn, key string, idx int) (*redis.Mess
 		return nil, err
 	}
 
+	if !db.HasRecord(key) {
+		return redis.NewNilMessage(), nil
+	}
+
 	_, list, err := db.GetListRecord(key)
 	if err != nil {
 		return nil, err
@@ -243,6 +252,10 @@ func (server *Server) LLen(conn *redis.Conn, key string) (*redis.Message, error)
 	db, err := server.GetDatabase(conn.Database())
 	if err != nil {
 		return nil, err
+	}
+
+	if !db.HasRecord(key) {
+		return redis.NewIntegerMessage(0), nil
 	}
 
 	_, list, err := db.GetListRecord(key)
